@@ -244,23 +244,13 @@ def generate() -> None:
         o.reset_cursor_shape()
     body += f"def resetCursorShape : List Nat := {ltext(emitted(reset_after))}\n"
     body += f"def resetCursorShapeUnchanged : List Nat := {ltext(emitted(lambda o: o.reset_cursor_shape()))}\n"
-    # set_title: prefix / suffix around the title, the `term` values for which nothing is written, and the
-    # code points below U+0100 that set_title REMOVES from the title (probed one by one)
+    # set_title: prefix / suffix around the title and the `term` values for which nothing is written
+    # (WHICH characters set_title deletes is the model's business: C0, DEL, C1; correspondence-checked)
     t = emitted(lambda o: o.set_title("Tt"))
     k = t.index("Tt")
     tpre, tsuf = t[:k], t[k + 2:]
     body += f"def titlePre : List Nat := {ltext(tpre)}\n"
     body += f"def titleSuf : List Nat := {ltext(tsuf)}\n"
-    removed = []
-    for cp in range(0x100):
-        got = emitted(lambda o: o.set_title("T" + chr(cp) + "t"))
-        if got == tpre + "Tt" + tsuf:
-            removed.append(cp)
-        elif got != tpre + "T" + chr(cp) + "t" + tsuf:
-            raise ValueError("set_title is not prefix + filtered title + suffix: %r" % got)
-    body += "/-- code points < 0x100 that `set_title` removes from the title -/\n"
-    body += "def titleRemoved : List Nat := [" + ", ".join(map(str, removed)) + "]\n"
-
     def title_for_term(term):
         from prompt_toolkit.data_structures import Size
         o = V(io.StringIO(), lambda: Size(rows=24, columns=80), term=term)
@@ -270,45 +260,9 @@ def generate() -> None:
               if title_for_term(tm) == ""]
     body += "/-- `term` values (of the probed ones) for which `set_title` writes nothing -/\n"
     body += "def titleSilentTerms : List String := [" + ", ".join(G.lstr(x) for x in silent) + "]\n"
-    body += "/-- probe of `PromptSession._dumb_prompt`: are control characters of the prompt message shown in\n"
-    body += "    caret / hex notation (`true`, proposed fix C10-dumb-prompt-controls) or written as they are (`false`)? -/\n"
-    ok, maps = probe_dumb_prompt()
-    body += f"def dumbPromptMaps : Bool := {'true' if maps else 'false'}\n"
-    body += f"def dumbPromptProbeOk : Bool := {'true' if ok else 'false'}\n"
     body += "\nend Ptk.Gen.C10\n"
     G.write("C10Display.lean", body)
     generate_codecs()
-
-
-def probe_dumb_prompt() -> tuple[bool, bool]:
-    """(probe worked, control characters are mapped).  Never raises: this generator runs inside every
-    property's check."""
-    try:
-        import asyncio
-
-        from prompt_toolkit import PromptSession
-        from prompt_toolkit.data_structures import Size
-        from prompt_toolkit.input import DummyInput
-        from prompt_toolkit.output.vt100 import Vt100_Output
-
-        async def main():
-            sio = io.StringIO()
-            out = Vt100_Output(sio, lambda: Size(rows=24, columns=80), term="dumb")
-            s = PromptSession(message="\x07\x9b", input=DummyInput(), output=out)
-            out.flush()
-            n = len(sio.getvalue())
-            with s._dumb_prompt(s.message):
-                got = sio.getvalue()[n:]
-            return got
-
-        got = asyncio.run(main())
-        if got == "\x07\x9b":
-            return True, False
-        if got == "^G<9b>":
-            return True, True
-        return False, False
-    except Exception:
-        return False, False
 
 
 # ------------------------------------------------------------------ codecs (the byte level)
